@@ -304,6 +304,7 @@ def check(run):
     run.clause('a connect never reaches a socket that no longer holds the binding it was addressed to: closing an acceptor empties its accept queue (shared with C07)')
     import p07 as _p07
     _p07.accept_queue_drained_rule(run)
+    _p07.acceptor_reopen_rule(run)
     run.clause('look-ups answer by membership, not by accident of order: algorithms that need a sorted range are applied only to containers the repository keeps sorted (the node\'s address list m_ips is in the user\'s order)')
     ns = engines.sorted_precondition(run, list(fx.repo_functions()), {
         'sim::simulation::m_timer_queue': 'kept sorted by add_timer (C03 sortedness rules)', 'm_timer_queue': 'kept sorted by add_timer (C03 sortedness rules)'})
